@@ -24,7 +24,7 @@ fn outcome_key(o: &Outcome) -> String {
 
 /// Pool of (rule, data) pairs: same rules on different data, different rules on the same
 /// data, erroring and logging calls.
-fn build_pool(ctx: &mut Ctx, n_rules: usize, n_data: usize) -> Vec<(Value, Value)> {
+fn build_pool(ctx: &mut Ctx, n_rules: usize, n_data: usize) -> (Vec<(Value, Value)>, usize) {
     let mut datas: Vec<Value> = vec![Value::Null, json!({"a": 1, "b": {"c": [1, 2, 3]}, "s": "héllo"}), json!([3, 1, 2]), json!({"a": 2, "b": {"c": []}, "s": ""}), json!("str")];
     while datas.len() < n_data {
         datas.push(rand_data(&mut ctx.rng, 3, 5, &mut 0));
@@ -67,7 +67,36 @@ fn build_pool(ctx: &mut Ctx, n_rules: usize, n_data: usize) -> Vec<(Value, Value
             pool.push((r.clone(), d.clone()));
         }
     }
-    pool
+    let tail_start = pool.len();
+    if !small_pool(n_rules) {
+        // deeply nested rules (any process-wide bookkeeping of "depth" shows when many threads are
+        // deep inside an evaluation at the same time) ...
+        for (op, leaf, depth) in [("!", json!({"var": "a"}), 120usize), ("if", json!({"var": "a"}), 110), ("and", json!({"var": "s"}), 100), ("+", json!({"var": "a"}), 120), ("cat", json!({"var": "s"}), 90), ("or", json!({"var": "a"}), 126), ("merge", json!({"var": "a"}), 60)] {
+            let mut r = leaf;
+            for _ in 0..depth {
+                r = json!({ op: [r] });
+            }
+            pool.push((r.clone(), json!({"a": 1, "s": "x"})));
+            // ... nested in map / filter / all (lazy operators evaluating lazy operators)
+            let mut l = json!({"var": ""});
+            for k in 0..40 {
+                l = match k % 3 { 0 => json!({"map": [[l], {"var": ""}]}), 1 => json!({"filter": [[l], true]}), _ => json!({"if": [true, l, 0]}) };
+            }
+            pool.push((l, json!([1, 2])));
+            let _ = r;
+        }
+        // ... and operands large enough for any size-triggered scratch buffer / cache
+        let big: String = std::iter::repeat("aé日😀").take(1500).collect();
+        let big_arr: Vec<Value> = (0..3000).map(|i| json!(i)).collect();
+        let bd = json!({"s": big, "arr": big_arr, "k": "s"});
+        for r in [json!({"var": "s.4321"}), json!({"var": ["s.-17"]}), json!({"substr": [{"var": "s"}, 100, 50]}), json!({"in": ["日😀a", {"var": "s"}]}), json!({"all": [{"var": "s"}, {"!=": [{"var": ""}, "x"]}]}),
+                  json!({"cat": [{"var": "s"}, {"var": "s"}]}), json!({"var": "arr.2999"}), json!({"reduce": [{"var": "arr"}, {"+": [{"var": "current"}, {"var": "accumulator"}]}, 0]}), json!({"map": [{"var": "arr"}, {"*": [{"var": ""}, 2]}]}),
+                  json!({"==": [{"var": "s"}, {"var": "s"}]}), json!({"<": [{"var": "s"}, "b"]}), json!({"missing": ["s.6000", "arr.3000", "arr.10"]}), json!({"merge": [{"var": "arr"}, {"var": "arr"}]}), json!({"max": {"var": "arr"}}),
+                  json!({"in": [2999.0, {"var": "arr"}]}), json!({"some": [{"var": "arr"}, {"===": [{"var": ""}, 2999]}]}), json!({"var": [{"cat": [{"var": "k"}, ".", 5999]}]})] {
+            pool.push((r, bd.clone()));
+        }
+    }
+    (pool, tail_start)
 }
 
 fn small_pool(n_rules: usize) -> bool {
@@ -83,7 +112,7 @@ struct Isolated {
 pub fn c17(ctx: &mut Ctx) {
     let small = ctx.small; // Miri lane
     let (nr, nd) = if small { (8, 2) } else if ctx.thorough() { (400, 12) } else { (120, 8) };
-    let pool = build_pool(ctx, nr, nd);
+    let (pool, tail_start) = build_pool(ctx, nr, nd);
     // ---- isolated results: first call of each pair in this process -----------------------
     // (a sample of them is additionally computed in a fresh process by the orchestrator)
     let warm = observe::observe(&json!({"log": "warm-up"}), &Value::Null);
@@ -192,7 +221,11 @@ pub fn c17(ctx: &mut Ctx) {
                 barrier.wait();
                 for _ in 0..calls_per_thread {
                     // few "hot" pairs so that threads collide on the same shared values
-                    let i = if rng.chance(1, 2) { rng.below(24.min(shared.len())) } else { rng.below(shared.len()) };
+                    let i = match rng.below(10) {
+                        0..=3 => rng.below(24.min(shared.len())),
+                        4..=6 if tail_start < shared.len() => tail_start + rng.below(shared.len() - tail_start),
+                        _ => rng.below(shared.len()),
+                    };
                     let (r, d) = &shared[i];
                     let out = observe::call(r, d);
                     let s = seq.fetch_add(1, Ordering::SeqCst);
